@@ -292,6 +292,23 @@ func parseJSON(fr *frame, in []value) (n *jnode, errMsg string) {
 	return n, ""
 }
 
+// jsonFirstValue parses the first JSON value of in and returns the offset just behind it; on a
+// syntax error end is -1 and atEnd tells whether the parser had consumed all of the input.
+func jsonFirstValue(fr *frame, in []value) (end int, atEnd bool, errMsg string) {
+	p := &jparser{fr: fr, in: in}
+	defer func() {
+		if r := recover(); r != nil {
+			if se, ok := r.(jsonSyntaxError); ok {
+				end, atEnd, errMsg = -1, p.pos >= len(in), se.msg
+				return
+			}
+			panic(r)
+		}
+	}()
+	p.value()
+	return p.pos, false, ""
+}
+
 type jsonTypeError struct{ msg string }
 
 func jsonFieldName(f *types.Var, tag string) (string, bool) {
@@ -586,15 +603,37 @@ func init() {
 		return nilError()
 	}
 	externals["(*encoding/json.Decoder).Decode"] = func(fr *frame, args []value) value {
+		// Model of the first Decode on a stream: the reader is drained, the first JSON value is
+		// decoded and whatever follows it is ignored (as the real Decoder leaves it buffered);
+		// input that ends inside the value is io.ErrUnexpectedEOF, other syntax errors are
+		// *json.SyntaxError, an all-blank stream is io.EOF.
 		d := structOf(args[0])
 		data, rerr := fr.readAllIface(d[0].(iface))
 		if rerr != nil {
 			return rerr
 		}
-		if len(data) == 0 {
-			return fr.ioEOF()
+		end, atEnd, msg := jsonFirstValue(fr, data)
+		if end < 0 {
+			blank := true
+			for _, c := range data {
+				if b, ok := c.(uint8); !ok || !(b == ' ' || b == '\t' || b == '\n' || b == '\r') {
+					blank = false
+				}
+			}
+			if blank {
+				return fr.ioEOF()
+			}
+			if atEnd {
+				ioPkg := fr.i.prog.ImportedPackage("io")
+				return *fr.i.globals[ioPkg.Var("ErrUnexpectedEOF")]
+			}
+			T := fr.i.namedType("encoding/json", "SyntaxError")
+			sv := zero(T).(structure)
+			sv[0] = msg
+			var cell value = sv
+			return iface{t: types.NewPointer(T), v: &cell}
 		}
-		return extJSONUnmarshal(fr, []value{data, args[1]})
+		return extJSONUnmarshal(fr, []value{data[:end], args[1]})
 	}
 	externals["encoding/json.Unmarshal"] = extJSONUnmarshal
 	externals["encoding/json.Valid"] = func(fr *frame, args []value) value {
